@@ -285,7 +285,7 @@ class BIC(common.Base):
 
     def _validate_structure(self, enforce_swift_compliance: bool = False) -> None:
         regex = _bic_swift_re if enforce_swift_compliance else _bic_iso9362_re
-        if not regex.match(str(self)):
+        if not regex.fullmatch(str(self)):
             raise exceptions.InvalidStructure(f"Invalid structure '{self!s}'")
 
     def _validate_country_code(self) -> None:
